@@ -71,8 +71,8 @@ func ssaBuildDomTree(f *ssa.Function)
 func ssaSanityCheck(fn *ssa.Function, reporter io.Writer) bool
 
 const (
-	inlineMaxInstrs  = 120
-	inlineMaxBlocks  = 24
+	inlineMaxInstrs  = 600
+	inlineMaxBlocks  = 120
 	inlineMaxPerFunc = 60
 )
 
@@ -176,20 +176,31 @@ func replaceUses(old, new ssa.Value) {
 	*r = nil
 }
 
-func inlinable(caller, g *ssa.Function) bool {
+func inlinable(caller, g *ssa.Function) bool { return inlinableAs(caller, g, false) }
+
+// inlinableAs: localClosure = g is a function literal of caller itself, called directly at this site (its free
+// variables are the bindings of the MakeClosure, which live in caller's scope).
+func inlinableAs(caller, g *ssa.Function, localClosure bool) bool {
 	if g == nil || g == caller || len(g.Blocks) == 0 || g.Pkg == nil || g.Pkg.Pkg == nil {
 		return false
 	}
 	if !strings.HasPrefix(g.Pkg.Pkg.Path()+"/", modPrefix) {
 		return false
 	}
-	if len(g.FreeVars) != 0 || g.Recover != nil || len(g.AnonFuncs) != 0 || g.Synthetic != "" || g.Parent() != nil {
+	if g.Recover != nil || len(g.AnonFuncs) != 0 || g.Synthetic != "" {
+		return false
+	}
+	if localClosure {
+		if g.Parent() != caller {
+			return false
+		}
+	} else if len(g.FreeVars) != 0 || g.Parent() != nil {
 		return false
 	}
 	if g.TypeParams().Len() != 0 || len(g.TypeArgs()) != 0 {
 		return false
 	}
-	if knownToRules(g.Name()) {
+	if !localClosure && knownToRules(g.Name()) {
 		return false
 	}
 	if len(g.Blocks) > inlineMaxBlocks {
@@ -253,6 +264,11 @@ func inlineCall(caller *ssa.Function, c *ssa.Call, g *ssa.Function) {
 	vmap := map[ssa.Value]ssa.Value{}
 	for i, p := range g.Params {
 		vmap[p] = c.Call.Args[i]
+	}
+	if mc, ok := c.Call.Value.(*ssa.MakeClosure); ok {
+		for i, fv := range g.FreeVars {
+			vmap[fv] = mc.Bindings[i]
+		}
 	}
 	var nblocks []*ssa.BasicBlock
 	for _, ob := range g.Blocks {
@@ -502,7 +518,12 @@ func (w *World) NormaliseHelpers(fns []*ssa.Function) []string {
 						continue
 					}
 					g := c.Call.StaticCallee()
-					if !inlinable(f, g) {
+					if mc, isMC := c.Call.Value.(*ssa.MakeClosure); isMC {
+						// a function literal of f called directly (`discard := func(err error) error {…}; return discard(err)`)
+						if mc.Parent() != f || !inlinableAs(f, g, true) {
+							continue
+						}
+					} else if !inlinable(f, g) {
 						continue
 					}
 					if g.Signature.Results().Len() > 1 {
@@ -525,6 +546,10 @@ func (w *World) NormaliseHelpers(fns []*ssa.Function) []string {
 				}
 			}
 		}
+		if fw := removeForwarders(f); fw > 0 {
+			sites = append(sites, fmt.Sprintf("%s: %d forwarding block(s) of merged values removed", fnShort(f), fw))
+			count += fw
+		}
 		if count > 0 {
 			ssaBuildDomTree(f)
 			if os.Getenv("ARVCHECK_INLINE_DEBUG") != "" {
@@ -539,6 +564,7 @@ func (w *World) NormaliseHelpers(fns []*ssa.Function) []string {
 	globalFuncCache = map[*ssa.Global]*ssa.Function{}
 	globalFuncMu.Unlock()
 	w.dropDeadHelpers(inlinedCallees)
+	invalidateSiteIndex(w.Prog)
 	return sites
 }
 
@@ -719,4 +745,136 @@ func RunProperty(w *World, pd *propDef, tier, verifDir string) *R {
 		"rules_failing": len(failing) - len(rescued),
 	}
 	return r
+}
+
+// removeForwarders deletes blocks that consist only of phis and a jump and whose phis are used solely by the phis
+// of their successor (`x = a || b` assigned inside an `if` and merged again right after): the predecessors are
+// connected to the successor directly and the successor's phis take the forwarded operands. The branch on the
+// merged value is then decided per arrival edge by the walker, exactly as if the source had spelled out the
+// if / else-if chain. Returns the number of blocks removed.
+func removeForwarders(f *ssa.Function) int {
+	n := 0
+	for changed := true; changed; {
+		changed = false
+	scan:
+		for _, P := range f.Blocks {
+			if P == f.Blocks[0] || P == f.Recover || len(P.Succs) != 1 || len(P.Preds) < 2 || len(P.Instrs) == 0 {
+				continue
+			}
+			S := P.Succs[0]
+			if S == P {
+				continue
+			}
+			if _, ok := P.Instrs[len(P.Instrs)-1].(*ssa.Jump); !ok {
+				continue
+			}
+			var phis []*ssa.Phi
+			for _, in := range P.Instrs[:len(P.Instrs)-1] {
+				p, ok := in.(*ssa.Phi)
+				if !ok {
+					continue scan
+				}
+				phis = append(phis, p)
+			}
+			if len(phis) == 0 {
+				continue
+			}
+			idxP := -1
+			for i, q := range S.Preds {
+				if q == P {
+					if idxP >= 0 {
+						continue scan
+					}
+					idxP = i
+				}
+			}
+			if idxP < 0 {
+				continue
+			}
+			for _, q := range P.Preds {
+				for _, sp := range S.Preds {
+					if sp == q {
+						continue scan // would create a duplicate edge
+					}
+				}
+				cnt := 0
+				for _, s := range q.Succs {
+					if s == P {
+						cnt++
+					}
+				}
+				if cnt != 1 {
+					continue scan
+				}
+			}
+			for _, p := range phis {
+				for _, ref := range *p.Referrers() {
+					q, ok := ref.(*ssa.Phi)
+					if !ok || q.Block() != S {
+						continue scan
+					}
+					for i, e := range q.Edges {
+						if e == ssa.Value(p) && i != idxP {
+							continue scan
+						}
+					}
+				}
+			}
+			// rewrite S's phis
+			for _, in := range S.Instrs {
+				q, ok := in.(*ssa.Phi)
+				if !ok {
+					break
+				}
+				v := q.Edges[idxP]
+				var ins []ssa.Value
+				for j := range P.Preds {
+					if pp, isP := v.(*ssa.Phi); isP && pp.Block() == P {
+						ins = append(ins, pp.Edges[j])
+						addReferrer(pp.Edges[j], q)
+					} else {
+						ins = append(ins, v)
+					}
+				}
+				if pp, isP := v.(*ssa.Phi); isP && pp.Block() == P {
+					dropReferrer(pp, q)
+				}
+				ne := append([]ssa.Value(nil), q.Edges[:idxP]...)
+				ne = append(ne, ins...)
+				ne = append(ne, q.Edges[idxP+1:]...)
+				q.Edges = ne
+			}
+			np := append([]*ssa.BasicBlock(nil), S.Preds[:idxP]...)
+			np = append(np, P.Preds...)
+			np = append(np, S.Preds[idxP+1:]...)
+			S.Preds = np
+			for _, q := range P.Preds {
+				for i, s := range q.Succs {
+					if s == P {
+						q.Succs[i] = S
+					}
+				}
+			}
+			for _, p := range phis {
+				for _, e := range p.Edges {
+					dropReferrer(e, p)
+				}
+			}
+			out := f.Blocks[:0]
+			for _, b := range f.Blocks {
+				if b != P {
+					out = append(out, b)
+				}
+			}
+			f.Blocks = out
+			P.Instrs, P.Succs, P.Preds = nil, nil, nil
+			for i, b := range f.Blocks {
+				b.Index = i
+			}
+			n++
+			changed = true
+			break
+		}
+	}
+	return n
 }
